@@ -6,11 +6,14 @@ import os
 from vf import core, models
 
 
-def run_order(d, gfa_text, chromosome_order, by_chrom, with_sequence=False, fname="g.gfa", sub="out"):
+def run_order(d, gfa_text, chromosome_order, by_chrom, with_sequence=False, fname="g.gfa", sub="out",
+              reuse_existing=False):
     from gaftools.cli.order_gfa import run_order_gfa
 
     path = os.path.join(d, fname)
-    if fname.endswith(".gz"):
+    if reuse_existing and os.path.exists(path):
+        pass
+    elif fname.endswith(".gz"):
         import gzip
 
         with gzip.open(path, "wt") as f:
